@@ -4,6 +4,7 @@
 -/
 import SolverzModel.Driver.C16
 import SolverzModel.Driver.C04
+import SolverzModel.Driver.C07
 open Solverz Solverz.Drv
 
 structure DState where
@@ -13,6 +14,7 @@ def stepLine (st : DState) (line : String) : DState × String :=
   match words line with
   | "c16" :: ws => let (h, o) := C16.step st.c16 ws; ({ st with c16 := h }, o)
   | "c04" :: ws => (st, C04.step ws)
+  | "c07" :: ws => (st, C07.step ws)
   | [] => (st, "")
   | _ => (st, "bad-op")
 
